@@ -127,6 +127,7 @@ impl Reporter {
             .map(|v| {
                 J::obj()
                     .set("signature", J::s(&v.signature))
+                    .set("timing", J::B(is_timing_verdict(&v.signature)))
                     .set("what", J::s(&v.what))
                     .set("case_seed", J::S(v.case_seed.to_string()))
                     .set("mode", J::s(&v.mode))
@@ -156,4 +157,38 @@ impl Reporter {
         }
         o
     }
+}
+
+/// A verdict that rests on a wall-clock bound ("did not happen within ...") as opposed to one
+/// that rests on observed content. The orchestrator does not believe the former when it measured
+/// heavy CPU load from processes that are not part of the check (they become inconclusive).
+pub fn is_timing_verdict(signature: &str) -> bool {
+    const KEYS: &[&str] = &[
+        "-stall",
+        "no-eof",
+        "not-delivered",
+        "unanswered",
+        "lost-wakeup",
+        "no-response",
+        "served-only-after",
+        "waited-for-answer",
+        "handler-blocked",
+        "stopped-serving",
+        "fewer-receivers",
+        "request-discarded",
+        "slow-return",
+        "not-returned",
+        "final-release-count",
+        "queued-while",
+        "returned-late",
+        "try_recv-blocked",
+        "not-reclaimed",
+        "no-dispatch",
+        "threads-left",
+        "still-accepting",
+        "accepting-again",
+        "date-not-now",
+        "request-count",
+    ];
+    KEYS.iter().any(|k| signature.contains(k))
 }
